@@ -54,14 +54,89 @@ def order_ops(rep, rid, facts, crates=('toml_edit', 'toml'), floor_shift=6):
               f'the query finds only {shift} shift_remove sites (expected >= {floor_shift}): removal no longer goes through shift_remove or the query is broken')
 
 
+def encode_traces(facts):
+    """The writer events of encode_array / encode_table (inline table) on containers of 0..3 elements, obtained by evaluating the two
+    functions with the writer calls recorded (whatever loop shape they use): {('array', n, trailing_comma): [event..], ('table', n): [..]}.
+    An event is (name, *modelled arguments)."""
+    from .den import RecInterp, Evaluator
+    out = {}
+    keep = lambda args: tuple(a for a in args if not (isinstance(a, tuple) and a and a[0] in ('opaque', 'rec')))
+    b = facts.body('toml_edit::encode::encode_array')
+    pn = [p['name'] for p in b['params'] if p.get('k') == 'p_bind']
+    for n in range(4):
+        for tc in (False, True):
+            it = RecInterp(Evaluator(facts), {'open_array', 'close_array', 'val_sep', 'prefix_encode', 'suffix_encode', 'encode_with_default'}, {'encode_value'})
+            vals = tuple(('ctor', 'toml_edit::item::Item::Value', (('elem', i),)) for i in range(n))
+            env = {pn[0]: ('struct', 'toml_edit::array::Array', {'values': vals, 'trailing_comma': tc, 'trailing': ('opaque',), 'decor': ('opaque',)}), '@assign': {}, '@calls': []}
+            for e in pn[1:]:
+                env[e] = ('opaque',)
+            env[pn[-1]] = ('<default prefix>', '<default suffix>')
+            it.val(b['body'], env)
+            out[('array', n, tc)] = [(nm,) + keep(args) for nm, args in it.calls]
+    b = facts.body('toml_edit::encode::encode_table')
+    pn = [p['name'] for p in b['params'] if p.get('k') == 'p_bind']
+    for n in range(4):
+        kids = tuple((('keys', i), ('elem', i)) for i in range(n))
+        it = RecInterp(Evaluator(facts), {'open_inline_table', 'close_inline_table', 'val_sep', 'keyval_sep', 'prefix_encode', 'suffix_encode', 'encode_with_default'},
+                       {'encode_value', 'encode_key_path_ref'}, stubs={'get_values': kids, 'preamble': ('opaque',), 'decor': ('opaque',)})
+        env = {pn[0]: ('struct', 'toml_edit::inline_table::InlineTable', {}), '@assign': {}, '@calls': []}
+        for e in pn[1:]:
+            env[e] = ('opaque',)
+        env[pn[-1]] = ('<default prefix>', '<default suffix>')
+        it.val(b['body'], env)
+        out[('table', n)] = [(nm,) + keep(args) for nm, args in it.calls]
+    return out
+
+
+def expected_encode_trace(kind, n, tc=False):
+    """what toml_edit prints for a programmatically built container: `[e0, e1, e2]` / `{ k0 = e0, k1 = e1 }`"""
+    if kind == 'array':
+        ev = [('prefix_encode', '<default prefix>'), ('open_array',)]
+        for i in range(n):
+            if i:
+                ev.append(('val_sep',))
+            ev.append(('encode_value', ('elem', i), ('', '') if i == 0 else (' ', '')))
+        if tc and n:
+            ev.append(('val_sep',))
+        return ev + [('encode_with_default', ''), ('close_array',), ('suffix_encode', '<default suffix>')]
+    ev = [('prefix_encode', '<default prefix>'), ('open_inline_table',), ('encode_with_default', '')]
+    for i in range(n):
+        if i:
+            ev.append(('val_sep',))
+        ev += [('encode_key_path_ref', ('keys', i), (' ', ' ')), ('keyval_sep',), ('encode_value', ('elem', i), (' ', ' ') if i == n - 1 else (' ', ''))]
+    return ev + [('close_inline_table',), ('suffix_encode', '<default suffix>')]
+
+
 def array_separators(rep, R, facts):
     """encode_array: a separator for every element but the first; the trailing comma is printed exactly when
     trailing_comma() && !is_empty() (an emptied array must not print `[,]`)."""
     from .core import peel
     from .den import truth_table, Evaluator, Unanalysable
-    # encode_array: separator for every element but the first; trailing comma reads trailing_comma() and !is_empty()
+    # decided on the writer events of arrays / inline tables of 0..3 elements; the structural reading below is the fallback when the
+    # functions cannot be evaluated
     b = facts.body('toml_edit::encode::encode_array')
     loc = facts.loc(b)
+    try:
+        tr = encode_traces(facts)
+    except (Unanalysable, KeyError, IndexError, TypeError) as e:
+        tr = None
+        rep.notes.append(f'encode_array / encode_table could not be evaluated ({e}); their loops are read structurally.') if hasattr(rep, 'notes') else None
+    if tr is not None:
+        strip = lambda evs: [e for e in evs if e[0] != 'val_sep' or True]
+        bad_plain = [n for n in range(4) if tr[('array', n, False)] != expected_encode_trace('array', n, False)]
+        bad_tc = [n for n in range(4) if tr[('array', n, True)] != expected_encode_trace('array', n, True)]
+        show = lambda k: ' '.join(e[0] + (str(list(e[1:])) if len(e) > 1 else '') for e in tr[k])
+        rep.check(R, 'encode_array|separator-all-but-first', not bad_plain, 'writer events of arrays of 0..3 elements: open, e0, (sep, e_i)*, trailing decor, close',
+                  'the element separator is not emitted for exactly the elements after the first' +
+                  (f' (array of {bad_plain[0]}: {show(("array", bad_plain[0], False))})' if bad_plain else ''), loc)
+        rep.check(R, 'encode_array|trailing-comma-flag', not bad_tc, 'with trailing_comma set: one more separator after the last element, none in an empty array',
+                  'the trailing comma is not printed exactly when trailing_comma() && !is_empty()' +
+                  (f' (array of {bad_tc[0]}: {show(("array", bad_tc[0], True))})' if bad_tc else ''), loc)
+        tb = facts.body('toml_edit::encode::encode_table')
+        bad_t = [n for n in range(4) if tr[('table', n)] != expected_encode_trace('table', n)]
+        rep.check(R, 'encode_table|pairs-and-separators', not bad_t, 'writer events of inline tables of 0..3 pairs: open, preamble, (sep?) key = value .., close',
+                  'an inline table is not written as `{ k = v, k = v }`' + (f' (table of {bad_t[0]}: {show(("table", bad_t[0]))})' if bad_t else ''), facts.loc(tb))
+        return
     ev = Evaluator(facts)
     sep_ifs = []
     for n in walk(b['body']):
@@ -327,10 +402,16 @@ def control_conditions(root, target):
     out = []
     if p is None:
         return None
+    last_match = None
     for node, key in p:
         if node.get('k') == 'if' and key in ('then', 'else'):
             c = node['cond']
             out.append((norm_expr(c.get('init') if c.get('k') == 'letexpr' else c) + ('|' + norm_expr(c.get('pat')) if c.get('k') == 'letexpr' else ''), key == 'then'))
+        if node.get('k') == 'match' and key == 'arms' and not any(x in (node.get('src') or '') for x in ('TryDesugar', 'ForLoopDesugar', 'AwaitDesugar')):
+            last_match = node
+        if 'pat' in node and 'body' in node and key == 'body' and node.get('k') is None and last_match is not None and any(a is node for a in last_match.get('arms', [])):
+            # the arm of a match over a selector (`match kind { Kind::A => .., Kind::B => .. }`)
+            out.append((norm_expr(last_match['scrut']) + '|' + norm_expr(node['pat']), True))
         if 'guard' in node and key == 'body' and node.get('guard') is not None:
             out.append((norm_expr(node['guard']), True))
     return out
@@ -376,7 +457,19 @@ def position_carry(facts):
                 except Ret:
                     pass
                 pushed = [a for nm, a in it.calls if nm == 'push']
-                key = pushed[0][0][0] if len(pushed) == 1 and pushed[0] and isinstance(pushed[0][0], tuple) and pushed[0][0] else None
+                key = None
+                if len(pushed) == 1 and pushed[0]:
+                    elem = pushed[0][0]
+                    # the key the collected entries are sorted by: the sort closure applied to the pushed entry (a tuple, a struct, ..)
+                    sorts = [n for n in walk(b['body']) if n.get('k') == 'mcall' and n.get('name') in ('sort_by_key', 'sort_by_cached_key') and n.get('args')
+                             and peel(n['args'][0]).get('k') == 'closure']
+                    if len(sorts) == 1:
+                        try:
+                            key = it.apply(('closure', peel(sorts[0]['args'][0]), {}), [elem])
+                        except Unanalysable:
+                            key = None
+                    if key is None and isinstance(elem, tuple) and elem and elem[0] not in ('struct', 'ctor', 'opaque', 'rec'):
+                        key = elem[0]
                 want = last if pos is None else pos
                 rows.append(((last, pos), (env.get(carried), key), (want, want)))
     except Unanalysable as e:
